@@ -235,6 +235,24 @@ def run(run, thorough):
     by_id3 = {id(s): m for s, m in zip(au, aum)}
     for scn, res in engine.run_all(run, 'all-users-tie', au):
         judge(run, scn, by_id3[id(scn)], res, section='all-users')
+    # $topdir/.Trash-$uid that is a symbolic link to a directory (an administrator keeps the users' trash elsewhere on the volume): it is
+    # a directory for every purpose (os.path.isdir follows the link), so its old entries are purged like any others
+    ln, lnm = [], []
+    for days in (7, None, 0):
+        tree = [['d', '/home/u', 0o755], ['d', '/vol1', 0o755], ['d', '/vol1/realtd', 0o700], ['l', '/vol1/.Trash-1000', '/vol1/realtd']] + scen.canary()
+        ents = []
+        lim = NOW - datetime.timedelta(days=days if days is not None else 3)
+        for tag, delta in (('old', -datetime.timedelta(days=2)), ('new', datetime.timedelta(days=2))):
+            dt = (lim + delta).strftime(FMT)
+            tree += scen.entry('/vol1/realtd', tag, 'w/' + tag, dt, 'f')
+            ents.append({'td': '/vol1/realtd', 'name': tag, 'dates': [dt]})
+        step = {'cmd': 'empty', 'argv': ([str(days)] if days is not None else []) + ['-f'], 'env': {'TRASH_DATE': NOW.strftime(FMT)}}
+        ln.append({'tree': tree, 'mounts': ['/vol1'], 'cwd': '/', 'uid': 1000, 'env': {'HOME': '/home/u', 'TRASH_VOLUMES': '/:/vol1'}, 'steps': [step],
+                   'judge_meta': {'days': days, 'ents': ents, 'orphans': [], 'micro': 0}})
+        lnm.append({'days': days, 'ents': ents, 'orphans': [], 'micro': 0})
+    by_id4 = {id(s): m for s, m in zip(ln, lnm)}
+    for scn, res in engine.run_all(run, 'linked-trash-dir', ln):
+        judge(run, scn, by_id4[id(scn)], res, section='linked-trash-dir')
     if out:
         run.sample({'level': 'state', 'argv': out[0][0]['steps'][0]['argv'], 'entries': metas[0]['ents'][:3]})
 
